@@ -53,3 +53,60 @@ Example C03_example :
   map_episodes true (@tl _) [(5%N,[1]); (0%N,[2]); (5%N,[3]); (0%N,[4]); (5%N,[6])]%Z
   = [(0%N,[4]); (5%N,[3]); (5%N,[6])]%Z.
 Proof. vm_compute. reflexivity. Qed.
+
+(* ---------------------------------------------------------------- pipelines *)
+From Coq Require Import Lia.
+From PK Require Import Stage StageSpec StageFacts EpisodeSem ZInst.
+Close Scope Z_scope.
+Open Scope nat_scope.
+
+(* For EVERY stage tree (any nesting of SplitPipeline / KoopmanPipeline, all
+   lifting-function kinds), every dims and every data matrix whose episodes have at
+   least min_samples rows: the rows carrying label i after transform are exactly
+   the per-episode specification tf_ep applied to episode i alone — its own rows,
+   in order; nothing from any other episode; whatever the arrangement of rows. *)
+Theorem C03_pipeline_episode : forall (T : Type) (O : ops T) (s : stage T) (d : dims) (X : dmat T),
+  valid (min_samples s) X ->
+  forall i, rows_of i (transform O s true d X) = tf_ep O s d (rows_of i X).
+Proof. intros T O s. exact (transform_true O s). Qed.
+Print Assumptions C03_pipeline_episode.
+
+(* without an episode feature the whole matrix is one episode (no premise needed) *)
+Theorem C03_pipeline_single : forall (T : Type) (O : ops T) (s : stage T) (d : dims) (X : dmat T),
+  rows (transform O s false d X) = tf_ep O s d (rows X).
+Proof. intros T O s. exact (transform_false O s). Qed.
+Print Assumptions C03_pipeline_single.
+
+Theorem C03_pipeline_labels : forall (T : Type) (O : ops T) (s : stage T) (d : dims) (X : dmat T),
+  valid (min_samples s) X -> forall i, In i (labels (transform O s true d X)) <-> In i (labels X).
+Proof. intros T O s d X. exact (transform_labels O s d (X:=X)). Qed.
+Print Assumptions C03_pipeline_labels.
+
+Theorem C03_pipeline_arrangement : forall (T : Type) (O : ops T) (s : stage T) (d : dims) (X X' : dmat T),
+  Arranged X X' -> valid (min_samples s) X ->
+  Arranged (transform O s true d X) (transform O s true d X').
+Proof. intros T O s d X X'. exact (@transform_arranged T O s d X X'). Qed.
+Print Assumptions C03_pipeline_arrangement.
+
+(* Recorded finding F12: the premise "every episode has min_samples rows" cannot be
+   dropped.  A SplitPipeline zips its branches BY POSITION; episode 0 (2 rows) yields
+   no rows in the delayed state branch, and episode 1's lifted states are then paired
+   with episode 0's inputs.  Witness evaluated by the kernel; replayed on the
+   implementation on every run (harness/known.py: witness_F12). *)
+Definition f12_stage : zstage :=
+  Split (CCons (Leaf (LDelay Z 2 2)) (CNil Z)) (CNil Z).
+Definition f12_X : dmat Z :=
+  [(0%N,[1;10]); (0%N,[2;20]); (1%N,[3;30]); (1%N,[4;40]); (1%N,[5;50]); (1%N,[6;60]); (1%N,[7;70])]%Z.
+Theorem C03_split_zip_refuted :
+  exists i, rows_of i (ztransform f12_stage true (1, 1) f12_X)
+            <> tf_ep zops f12_stage (1, 1) (rows_of i f12_X).
+Proof. exists 1%N. vm_compute. discriminate. Qed.
+Print Assumptions C03_split_zip_refuted.
+
+Example C03_pipeline_example :
+  valid (min_samples f12_stage) (skipn 2 f12_X) /\
+  rows_of 1%N (ztransform f12_stage true (1, 1) (skipn 2 f12_X)) = [[5;4;3;50]; [6;5;4;60]; [7;6;5;70]]%Z.
+Proof.
+  split; [|vm_compute; reflexivity].
+  intros i Hi. cbn in Hi. repeat (destruct Hi as [<-|Hi]; [vm_compute; lia|]). destruct Hi.
+Qed.
